@@ -270,6 +270,15 @@ def cases(draw):                                                   # noqa: C901
                 cur = []
         if cur:
             chunks.append(cur)
+        if draw(st.integers(0, 2)) == 0:
+            # several select-chunks packed onto one host: the vnode is named again (its own
+            # chunk, or inside another host's chunk)
+            for _ in range(draw(st.integers(1, 2))):
+                h = draw(st.sampled_from(hs))
+                if draw(st.booleans()) or not chunks:
+                    chunks.insert(draw(st.integers(0, len(chunks))), [h])
+                else:
+                    chunks[draw(st.integers(0, len(chunks) - 1))].append(h)
 
     case = {
         'rm': rm, 'mode': mode, 'groups': groups, 'pseudo': pseudo, 'lines': lines,
